@@ -11,7 +11,7 @@ configurations is bounded by the client's finite domain.
 """
 from collections import deque
 
-from .core import eff_cond
+from .core import eff_cond, implied_atoms
 
 
 class Flow:
@@ -79,10 +79,14 @@ class Flow:
                     continue
                 if two_way and self.refine is not None:
                     truth = (si == 0)
-                    flow = set()
-                    for c in cur:
-                        for c2 in self.refine(cond, truth, c):
-                            flow.add(c2)
+                    atoms = implied_atoms(cond, truth)
+                    flow = set(cur)
+                    for atom, tv in atoms:
+                        nxt = set()
+                        for c in flow:
+                            for c2 in self.refine(atom, tv, c):
+                                nxt.add(c2)
+                        flow = nxt
                 else:
                     flow = cur
                 old = self.inn.get(s)
